@@ -11,11 +11,14 @@ import Csverif.Driver.Monitor
      unsyncoid <found> B4         -> actions
      unsyncpath <translates> B4*  -> actions
      list B8                      -> T | F | -
+     info B8                      -> T | F | -        (`smart_info_path`)
+     infooid B2 B8                -> T | F | -        (`smart_info_oid`: known translates)
    SPEC obligations (sections separated by `|`; trees / paths as in layer `monitor`):
      step | ops | auto | L                               -> ok | reject …
      quiet | ops | auto | L | R
      unsync | ops | auto | p | L/R | Lb | Rb | La | Ra | ok/nf/err
      listing | Q/S | local names | remote names | name:T/F …
+     ghost | name:<synced T/F>:<engine knows the remote side gone T/F> …   (any listing / info result, at any instant)
    ops: RC:<p>:<tag> RW:<p>:<tag> RD:<p> RM:<p> LC:<p>:<tag> LW:<p>:<tag> LM:<p> Q+:<p>:<res> Q-:<p>:<res> -/
 namespace CS.Driver.MonC20
 open CS.Wire CS.Smart CS.Spec CS.Spec.Smart CS.Driver.Monitor
@@ -121,6 +124,20 @@ def modelStep (toks : List String) : Option String :=
       let es ← ents.mapM (fun e => do decUnsyncIn (← decBools e))
       pure (encActs (unsyncPath tr es))
     | _ => none
+  | ["info", b] => do
+    match ← decBools b with
+    | [a, b, c, d, e, f, g, h] =>
+      let o := infoPath { hasLocal := a, hasRent := b, rentLocalPath := c, pathsMatch := d, localGone := e, remoteGone := f,
+                          localVisible := g, remoteVisible := h }
+      pure (match o with | some true => "T" | some false => "F" | none => "-")
+    | _ => none
+  | ["infooid", kt, b] => do
+    match ← decBools kt, ← decBools b with
+    | [k, t], [a, b, c, d, e, f, g, h] =>
+      let o := infoOid k t { hasLocal := a, hasRent := b, rentLocalPath := c, pathsMatch := d, localGone := e, remoteGone := f,
+                             localVisible := g, remoteVisible := h }
+      pure (match o with | some true => "T" | some false => "F" | none => "-")
+    | _, _ => none
   | ["list", b] => do
     match ← decBools b with
     | [a, b, c, d, e, f, g, h] =>
@@ -169,6 +186,13 @@ def specStep (secs : List (List String)) : Option String :=
       | .localChangedByNoop => s!"reject local-changed-by-noop-unrequest {firstDiff la lb}"
       | .newestLost => s!"reject newest-lost {encPath p}"
       | .otherLocalChanged => "reject other-local-changed")
+  | [["ghost"], rows] => do
+    let rows ← rows.mapM (fun t => match t.splitOn ":" with
+      | [n, sy, g] => do pure ({ name := (← decName n), synced := (← decBool sy), remoteKnownGone := (← decBool g) } : Row)
+      | _ => none)
+    pure (match ghostOf rows with
+      | none => "ok"
+      | some n => s!"reject deleted-remote-file-listed {encStr n.toList}")
   | [["listing"], [q], lk, rk, ents] => do
     let lk ← lk.mapM decName
     let rk ← rk.mapM decName
@@ -184,7 +208,7 @@ def step (toks : List String) : String :=
   match toks with
   | [] => "bad-op"
   | t :: _ =>
-    if t == "step" || t == "quiet" || t == "unsync" || t == "listing" then
+    if t == "step" || t == "quiet" || t == "unsync" || t == "listing" || t == "ghost" then
       (specStep (sections toks)).getD "bad-arg"
     else (modelStep toks).getD "bad-arg"
 
